@@ -5,6 +5,7 @@ package main
 // extracted byte-level model.
 
 import (
+	"runtime"
 	"bytes"
 	"fmt"
 	"image"
@@ -221,23 +222,35 @@ func transformCases() []transformCase {
 
 func init() {
 	commands["C10"] = func(c *ctx) {
-		c.res.Rule = "image pairs: source type in {RGBA64, NRGBA64, RGBA, NRGBA, YCbCr x 6 subsamplings (sub-images at arbitrary chroma phase), Gray, Gray16, CMYK, Paletted, opaque wrapper} x destination in {RGBA64, RGBA, NRGBA, NRGBA64} concrete or wrapped, bounds with origins in [-7,9], empty / 1xN / Nx1 / up to 9x9, destination equal or larger, sub-images with stride > width over sentinel-filled parents, parallelism in {1,2,3,7,16,rows+5}, 8 real transforms + 3 synthetic per-colour functions, in-place and out-of-place, 16-bit sources with nearly opaque / nearly transparent alphas; every byte of the destination view and of its parent is compared with a reference built with the standard library's Set and with the extracted model; non-trivial = non-empty source"
+		c.res.Rule = "image pairs: source type in {RGBA64, NRGBA64, RGBA, NRGBA, YCbCr x 6 subsamplings (sub-images at arbitrary chroma phase), Gray, Gray16, CMYK, Paletted, opaque wrapper} x destination in {RGBA64, RGBA, NRGBA, NRGBA64} concrete or wrapped, bounds with origins in [-7,9], empty / 1xN / Nx1 / up to 9x9, destination equal or larger, sub-images with stride > width over sentinel-filled parents, parallelism in {1,2,3,7,16,rows+5} (and 17-30 row images with parallelism up to 28 under GOMAXPROCS=2), rows in which every pixel is the transform of its left neighbour (in place), 8 real transforms + 3 synthetic per-colour functions, in-place and out-of-place, 16-bit sources with nearly opaque / nearly transparent alphas; every byte of the destination view and of its parent is compared with a reference built with the standard library's Set and with the extracted model; non-trivial = non-empty source"
 		rng := c.rng
 		tcs := transformCases()
 		n := 4000
 		if c.thorough {
 			n = 40000
 		}
-		var jobs []job
-		for it := 0; it < n; it++ {
+		var jobs, tallJobs []job
+		for it := 0; it < n+n/20; it++ {
 			w, h := pick(rng, 0, 1, 1, 2, 3, 5, 9), pick(rng, 0, 1, 1, 2, 3, 6, 9)
 			if rng.Intn(20) != 0 && (w == 0 || h == 0) {
 				w, h = 1+rng.Intn(6), 1+rng.Intn(6)
+			}
+			tall := it >= n // more rows than processors: run afterwards with GOMAXPROCS lowered to 2
+			if tall {
+				w, h = 1+rng.Intn(3), 17+rng.Intn(14)
 			}
 			skind := srcKinds[rng.Intn(len(srcKinds))]
 			dkind := []string{"RGBA64", "RGBA", "NRGBA", "NRGBA64"}[rng.Intn(4)]
 			wrapped := rng.Intn(3) == 0
 			inplace := rng.Intn(5) == 0
+			// rows in which every pixel is the transform of its left neighbour (in-place 16-bit only)
+			chain := rng.Intn(8) == 0
+			if chain {
+				inplace, dkind, wrapped = true, "RGBA64", false
+				if w < 4 && !tall {
+					w = 4 + rng.Intn(5)
+				}
+			}
 			if inplace {
 				skind = dkind
 			}
@@ -245,9 +258,16 @@ func init() {
 			dr := randRect(rng, w+pick(rng, 0, 0, 1, 3), h+pick(rng, 0, 0, 2))
 			tc := tcs[rng.Intn(len(tcs))]
 			pars := []int{1, 2, 3, 7, 16, h + 5}
+			if tall {
+				pars = []int{1, 2, 3, 7, 16, 28, h + 5}
+			}
 			seed := rng.Int63()
 			it := it
-			jobs = append(jobs, func(wk *worker) {
+			dest := &jobs
+			if tall {
+				dest = &tallJobs
+			}
+			*dest = append(*dest, func(wk *worker) {
 				lr := rand.New(rand.NewSource(seed))
 				var results [][]byte
 				for _, par := range pars {
@@ -257,6 +277,14 @@ func init() {
 					if inplace {
 						// the source is the destination itself: bounds are the destination's
 						src = dst
+						if d64, ok := dst.(*image.RGBA64); ok && chain {
+							db := d64.Bounds()
+							for y := db.Min.Y; y < db.Max.Y; y++ {
+								for x := db.Min.X + 1; x < db.Max.X; x++ {
+									d64.SetRGBA64(x, y, tc.f(d64.At(x-1, y)))
+								}
+							}
+						}
 					} else {
 						src = newSrc(r2, skind, sr)
 					}
@@ -345,5 +373,8 @@ func init() {
 		}
 		c.res.sample(map[string]interface{}{"transform": "srgb.LineariseImage", "src": "YCbCr420 sub-image", "dst": "NRGBA64 sub-image of a sentinel-filled parent", "parallelism": []int{1, 2, 3, 7, 16}})
 		c.runJobs(jobs)
+		oldProcs := runtime.GOMAXPROCS(2)
+		c.runJobs(tallJobs)
+		runtime.GOMAXPROCS(oldProcs)
 	}
 }
